@@ -115,10 +115,11 @@ _reg("C02", c02.run,
                 "fields unconverted. PARTIAL by nature: that h5py/libhdf5 store and return the same bits, and that memory "
                 "layout is inert, are contract assumptions exercised only by the correspondence/oracle run.",
      level_note="Lean kernel; hand-written models of to_dict/from_dict/write/read and of the h5py contract (create_dataset conversions, item[()], link names, iteration order), validated against the real library and real files on every run.")
-_reg("C03", c03.run, translator=("T1", "T2", "T3"), module="NirVerif.Properties.C03File",
+_reg("C03", c03.run, translator=("T1", "T2", "T3", "T13"), module="NirVerif.Properties.C03Generated",
      theorems=["NirVerif.C03.names", "NirVerif.C03.names_cover", "NirVerif.C03.toDict_keys_generic", "NirVerif.C03.root",
                "NirVerif.C03.edges_layout", "NirVerif.C03.value_layout", "NirVerif.Lemmas.write_encodes",
-               "NirVerif.C03.file_exact", "NirVerif.C03.leaf_group", "NirVerif.C03.graph_group"],
+               "NirVerif.C03.file_exact", "NirVerif.C03.leaf_group", "NirVerif.C03.graph_group",
+               "NirVerif.C03.write_shape_generated", "NirVerif.C03.badName_generated", "NirVerif.C03.root_generated"],
      rule="Random graphs of the C01 domain (all primitives, nesting, metadata, unicode names, 16 dtypes, every hyper-parameter "
           "container form): the raw h5py traversal of the written file is compared (a) with an independent Python reference "
           "encoder written from the documentation and (b) with the tree the Lean model's writer prints; read_version is "
